@@ -43,6 +43,8 @@ harness uses an order-preserving one on the values it generates) — `ofAsset`, 
 Left untranslated: `#[derive(Ord)]` / `#[derive(PartialEq)]` themselves (parameters / Lean's `=`),
 `Instrument::{new, spot}` and the name constructors (C11N), `impl FromIterator`.
 -/
+set_option linter.unusedSimpArgs false   -- the proof scripts name the equations of every spelling of a search (`find?` / `findSome?` / ..): some stay unused
+
 namespace BarterModel.KernelsAgree.IndexerSM
 open BarterModel BarterModel.Index BarterModel.KernelsAgree.IterVocab
 open BarterModel.Generated.Machines (Rust.Str)
@@ -169,41 +171,78 @@ theorem add_instrument_agrees (b : G.Builder) (d : G.Def) :
 
 /-! ## The two free lookups and the six methods -/
 
+/- Every lookup below is proved the same way, whatever iterator chain / helper / orientation of `==` the source uses: take
+the records apart, induct on the haystack, unfold EVERYTHING generated for the group together with the model's definition
+and the `cons` equations of the list searches written as `if`s (`lookup_unfold`), decide the comparison(s) of the step on
+the DATA (`cmp_cases`: both orientations at hand), and simplify. -/
+
+theorem find?_cons_if {α : Type} (p : α → Bool) (a : α) (l : List α) :
+    (a :: l).find? p = if p a = true then some a else l.find? p := by
+  cases h : p a <;> simp [h]
+
+theorem findSome?_cons_if {α β : Type} (f : α → Option β) (a : α) (l : List α) :
+    (a :: l).findSome? f = if (f a).isSome = true then f a else l.findSome? f := by
+  cases h : f a <;> simp [h]
+
+open Lean.Parser.Tactic in
+local macro "lookup_unfold" loc:(location)? : tactic => `(tactic|
+  simp only [gen_indexer, gen_exec_map, findExchangeByExchangeId, findAssetByExchangeAndNameInternal,
+     Indexed.findExchangeIndex, Indexed.findExchange, Indexed.findAssetIndex, Indexed.findAsset,
+     Indexed.findInstrumentIndex, Indexed.findInstrument, ofIndexed,
+     find?_cons_if, findSome?_cons_if, List.find?_nil, List.findSome?_nil, List.map_cons, List.map_nil,
+     Option.map_map, decide_eq_true_eq, ofKX, ofKA, ofKI,
+     Generated.Machines.ExchangeIndex.mk.injEq, Generated.Machines.AssetIndex.mk.injEq,
+     Generated.Machines.InstrumentIndex.mk.injEq] $[$loc]?)
+
+/-- decide the comparison `a = b` of a search step on the data: in the positive case the two are identified, in the negative
+one both orientations of the inequality are at hand (the source may write either) -/
+local macro "cmp_cases" a:term:max b:term:max : tactic => `(tactic|
+  by_cases hcmp : $a = $b <;> first | subst hcmp | (have hcmp' : ¬ $b = $a := fun e => hcmp e.symm) | skip)
+
+local macro "lookup_close" : tactic => `(tactic|
+  simp_all [toOpt, ofEA, ofAsset, ofIInstr, ofInstr, ofKX])
+
 theorem find_exchange_by_exchange_id_agrees (h : List G.KX) (n : Nat) :
     toOpt (·.f0) (Generated.Machines.find_exchange_by_exchange_id h n)
       = findExchangeByExchangeId (h.map ofKX) n := by
-  unfold_ix
-  simp only [findExchangeByExchangeId, findSome?_ite]
   induction h with
-  | nil => rfl
+  | nil => lookup_unfold; lookup_close
   | cons k rest ih =>
-    by_cases hk : k.value = n
-    · simp [ofKX, hk, toOpt]
-    · simpa [ofKX, hk] using ih
+    rcases k with ⟨⟨key⟩, value⟩
+    lookup_unfold at ih ⊢
+    cmp_cases value n <;> lookup_close
 
 theorem find_asset_by_exchange_and_name_internal_agrees (h : List G.KA) (e ni : Nat) :
     toOpt (·.f0) (Generated.Machines.find_asset_by_exchange_and_name_internal h e ni)
       = findAssetByExchangeAndNameInternal (h.map ofKA) e ni := by
-  unfold_ix
-  simp only [findAssetByExchangeAndNameInternal, findSome?_ite]
   induction h with
-  | nil => rfl
+  | nil => lookup_unfold; lookup_close
   | cons k rest ih =>
-    by_cases hk : k.value.exchange = e ∧ k.value.asset.name_internal = ni
-    · simp [ofKA, ofEA, ofAsset, hk, toOpt]
-    · simpa [ofKA, ofEA, ofAsset, hk] using ih
+    rcases k with ⟨⟨key⟩, ⟨ex, ⟨ani, ane⟩⟩⟩
+    lookup_unfold at ih ⊢
+    cmp_cases ex e <;> cmp_cases ani ni <;> lookup_close
 
 theorem find_exchange_index_agrees (r : G.Indexed) (e : Nat) :
     toOpt (·.f0) (Generated.Machines.IndexedInstruments.find_exchange_index r e)
       = (ofIndexed cd r).findExchangeIndex e := by
-  have := find_exchange_by_exchange_id_agrees r.exchanges e
-  simpa [gen_indexer, Indexed.findExchangeIndex, ofIndexed] using this
+  rcases r with ⟨xs, as, is⟩
+  induction xs with
+  | nil => lookup_unfold; lookup_close
+  | cons k rest ih =>
+    rcases k with ⟨⟨key⟩, value⟩
+    lookup_unfold at ih ⊢
+    cmp_cases value e <;> lookup_close
 
 theorem find_asset_index_agrees (r : G.Indexed) (e ni : Nat) :
     toOpt (·.f0) (Generated.Machines.IndexedInstruments.find_asset_index r e ni)
       = (ofIndexed cd r).findAssetIndex e ni := by
-  have := find_asset_by_exchange_and_name_internal_agrees r.assets e ni
-  simpa [gen_indexer, Indexed.findAssetIndex, ofIndexed] using this
+  rcases r with ⟨xs, as, is⟩
+  induction as with
+  | nil => lookup_unfold; lookup_close
+  | cons k rest ih =>
+    rcases k with ⟨⟨key⟩, ⟨ex, ⟨ani, ane⟩⟩⟩
+    lookup_unfold at ih ⊢
+    cmp_cases ex e <;> cmp_cases ani ni <;> lookup_close
 
 theorem f0_injX : Function.Injective (fun a : G.XIdx => a.f0) := by
   intro a b h; cases a; cases b; simpa using h
@@ -212,56 +251,50 @@ theorem f0_injA : Function.Injective (fun a : G.AIdx => a.f0) := by
 theorem f0_injI : Function.Injective (fun a : G.IIdx => a.f0) := by
   intro a b h; cases a; cases b; simpa using h
 
-theorem find_by_key {K V V' : Type} [DecidableEq K] (f0 : K → Nat) (hf : Function.Injective f0) (g : V → V')
-    (l : List (Generated.Machines.Keyed K V)) (k : K) :
-    ((l.find? fun x => decide (x.key = k)).map fun x => g x.value)
-      = ((l.map fun x => (⟨f0 x.key, g x.value⟩ : Keyed Nat V')).find? fun x => x.key = f0 k).map (·.value) := by
-  induction l with
-  | nil => rfl
-  | cons x rest ih =>
-    by_cases hk : x.key = k
-    · simp [hk]
-    · have : ¬ f0 x.key = f0 k := fun e => hk (hf e)
-      simpa [hk, this] using ih
-
 theorem find_exchange_agrees (r : G.Indexed) (k : G.XIdx) :
     toOpt id (Generated.Machines.IndexedInstruments.find_exchange r k) = (ofIndexed cd r).findExchange k.f0 := by
-  unfold_ix
-  have := find_by_key (fun a : G.XIdx => a.f0) f0_injX (fun v : Nat => v) r.exchanges k
-  simp only [Indexed.findExchange, ofIndexed]
-  rw [show (r.exchanges.map ofKX) = r.exchanges.map (fun x => (⟨x.key.f0, x.value⟩ : Keyed Nat Nat)) from rfl, ← this]
-  cases List.find? (fun x => decide (x.key = k)) r.exchanges <;> simp [toOpt]
+  rcases r with ⟨xs, as, is⟩
+  rcases k with ⟨k⟩
+  induction xs with
+  | nil => lookup_unfold; lookup_close
+  | cons x rest ih =>
+    rcases x with ⟨⟨key⟩, value⟩
+    lookup_unfold at ih ⊢
+    cmp_cases key k <;> lookup_close
 
 theorem find_asset_agrees (r : G.Indexed) (k : G.AIdx) :
     toOpt ofEA (Generated.Machines.IndexedInstruments.find_asset r k) = (ofIndexed cd r).findAsset k.f0 := by
-  unfold_ix
-  have := find_by_key (fun a : G.AIdx => a.f0) f0_injA ofEA r.assets k
-  simp only [Indexed.findAsset, ofIndexed]
-  rw [show (r.assets.map ofKA) = r.assets.map (fun x => (⟨x.key.f0, ofEA x.value⟩ : Keyed Nat ExchangeAsset)) from rfl,
-    ← this]
-  cases List.find? (fun x => decide (x.key = k)) r.assets <;> simp [toOpt]
+  rcases r with ⟨xs, as, is⟩
+  rcases k with ⟨k⟩
+  induction as with
+  | nil => lookup_unfold; lookup_close
+  | cons x rest ih =>
+    rcases x with ⟨⟨key⟩, v⟩
+    lookup_unfold at ih ⊢
+    cmp_cases key k <;> lookup_close
 
 theorem find_instrument_agrees (r : G.Indexed) (k : G.IIdx) :
     toOpt (ofIInstr cd) (Generated.Machines.IndexedInstruments.find_instrument r k)
       = (ofIndexed cd r).findInstrument k.f0 := by
-  unfold_ix
-  have := find_by_key (fun a : G.IIdx => a.f0) f0_injI (ofIInstr cd) r.instruments k
-  simp only [Indexed.findInstrument, ofIndexed]
-  rw [show (r.instruments.map (ofKI cd))
-      = r.instruments.map (fun x => (⟨x.key.f0, ofIInstr cd x.value⟩ : Keyed Nat IInstrument)) from rfl, ← this]
-  cases List.find? (fun x => decide (x.key = k)) r.instruments <;> simp [toOpt]
+  rcases r with ⟨xs, as, is⟩
+  rcases k with ⟨k⟩
+  induction is with
+  | nil => lookup_unfold; lookup_close
+  | cons x rest ih =>
+    rcases x with ⟨⟨key⟩, v⟩
+    lookup_unfold at ih ⊢
+    cmp_cases key k <;> simp_all [toOpt]
 
 theorem find_instrument_index_agrees (r : G.Indexed) (e ni : Nat) :
     toOpt (·.f0) (Generated.Machines.IndexedInstruments.find_instrument_index r e ni)
       = (ofIndexed cd r).findInstrumentIndex e ni := by
-  unfold_ix
-  simp only [Indexed.findInstrumentIndex, ofIndexed, findSome?_ite]
-  induction r.instruments with
-  | nil => rfl
-  | cons k rest ih =>
-    by_cases hk : k.value.exchange.value = e ∧ k.value.name_internal = ni
-    · simp [ofKI, ofIInstr, ofInstr, ofKX, hk, toOpt]
-    · simpa [ofKI, ofIInstr, ofInstr, ofKX, hk] using ih
+  rcases r with ⟨xs, as, is⟩
+  induction is with
+  | nil => lookup_unfold; lookup_close
+  | cons x rest ih =>
+    rcases x with ⟨⟨key⟩, ⟨⟨⟨xk⟩, xv⟩, nmi, nme, ⟨base, quote⟩, q, kind, spec⟩⟩
+    lookup_unfold at ih ⊢
+    cmp_cases xv e <;> cmp_cases nmi ni <;> lookup_close
 
 /-! ## `map_exchange_key`, `map_asset_key_with_lookup` -/
 
@@ -458,7 +491,8 @@ attribute [-gen_indexer] Generated.Machines.find_exchange_by_exchange_id
 hypotheses on the ordering parameters. -/
 theorem build_agrees (ordX : Nat → Nat → Bool) (ordI : G.Def → G.Def → Bool) (ordA : G.EA → G.EA → Bool)
     (hord : OrdHyp cd ordX ordI ordA) (b : G.Builder) (r : Indexed) (hb : (ofBuilder cd b).build = some r) :
-    ofIndexed cd (Generated.Machines.IndexedInstrumentsBuilder.build ordX ordI ordA b) = r := by
+    ofIndexed cd (Generated.Machines.IndexedInstrumentsBuilder.build (Ord_ExchangeId := ordX)
+          (Ord_InstrumentFull_ExchangeId_AssetFull := ordI) (Ord_ExchangeAsset_AssetFull := ordA) b) = r := by
   rcases b with ⟨xs, is, as⟩
   -- the three sorted + dedup'd lists, generated and model side
   have hX : (Generated.Machines.Rust.Vec.dedup (xs.mergeSort ordX)).map id = sortDedup exchangeKey (xs.map id) :=
@@ -542,7 +576,8 @@ the model's `build` of the abstracted definitions. -/
 theorem new_agrees {I : Type} [DecidableEq I] (conv : I → G.Def) (ordX : Nat → Nat → Bool) (ordI : G.Def → G.Def → Bool)
     (ordA : G.EA → G.EA → Bool) (hord : OrdHyp cd ordX ordI ordA) (defs : List I) (r : Indexed)
     (hb : Index.build (defs.map fun d => ofDef cd (conv d)) = some r) :
-    ofIndexed cd (Generated.Machines.IndexedInstruments.new conv ordX ordI ordA defs) = r := by
+    ofIndexed cd (Generated.Machines.IndexedInstruments.new (I_into := conv) (Ord_ExchangeId := ordX)
+          (Ord_InstrumentFull_ExchangeId_AssetFull := ordI) (Ord_ExchangeAsset_AssetFull := ordA) defs) = r := by
   have hfold : ∀ (l : List I) (b : G.Builder),
       ofBuilder cd (l.foldl (fun b d => Generated.Machines.IndexedInstrumentsBuilder.add_instrument b (conv d)) b)
         = (l.map fun d => ofDef cd (conv d)).foldl Builder.addInstrument (ofBuilder cd b) := by
@@ -609,10 +644,12 @@ theorem indexer_agrees (cd : Coding) :
     (∀ (ordX : Nat → Nat → Bool) (ordI : G.Def → G.Def → Bool) (ordA : G.EA → G.EA → Bool),
       OrdHyp cd ordX ordI ordA →
       (∀ (b : G.Builder) (r : Indexed), (ofBuilder cd b).build = some r →
-        ofIndexed cd (Generated.Machines.IndexedInstrumentsBuilder.build ordX ordI ordA b) = r) ∧
+        ofIndexed cd (Generated.Machines.IndexedInstrumentsBuilder.build (Ord_ExchangeId := ordX)
+          (Ord_InstrumentFull_ExchangeId_AssetFull := ordI) (Ord_ExchangeAsset_AssetFull := ordA) b) = r) ∧
       (∀ {I : Type} [DecidableEq I] (conv : I → G.Def) (defs : List I) (r : Indexed),
         Index.build (defs.map fun d => ofDef cd (conv d)) = some r →
-        ofIndexed cd (Generated.Machines.IndexedInstruments.new conv ordX ordI ordA defs) = r)) ∧
+        ofIndexed cd (Generated.Machines.IndexedInstruments.new (I_into := conv) (Ord_ExchangeId := ordX)
+          (Ord_InstrumentFull_ExchangeId_AssetFull := ordI) (Ord_ExchangeAsset_AssetFull := ordA) defs) = r)) ∧
     (∀ (h : List G.KX) (n : Nat),
       toOpt (·.f0) (Generated.Machines.find_exchange_by_exchange_id h n) = findExchangeByExchangeId (h.map ofKX) n) ∧
     (∀ (h : List G.KA) (e ni : Nat),
